@@ -49,24 +49,32 @@ def expected(N, entry):
     return KNOWN_COUNTS.get((N, entry))
 
 
-def s1_jobs(tier, harness, quick_n5_max_edges=None):
+def s1_jobs(tier, harness, quick_n5_max_edges=None, with_routes=True):
     """The standard S1 job list.  harness(E, ctx, aux, desc)."""
 
-    def mk(name, N, entry=None, max_edges=None, skeleton=None, budget=900.0, required=True, exp=None, dag=False):
+    def mk(name, N, entry=None, max_edges=None, skeleton=None, budget=900.0, required=True, exp=None, dag=False, routes=None, prefix="b",
+           features=None):
         def space():
-            return s1_space(N, entry=entry, max_edges=max_edges, skeleton=skeleton, dag=dag)
+            return s1_space(N, entry=entry, max_edges=max_edges, skeleton=skeleton, dag=dag, features=features)
 
         def h(E, ctx, aux):
-            desc = realise_s1(E, aux)
-            ctx.current = desc
-            harness(E, ctx, aux, desc)
+            desc = realise_s1(E, aux, prefix=prefix)
+            if routes is None:
+                ctx.current = desc
+                harness(E, ctx, aux, desc)
+                return
+            for r in routes:
+                d = dict(desc, route=r)
+                ctx.current = d
+                harness(E, ctx, aux, d)
 
         return Job(
             name=name,
             space=space,
             harness=h,
             bounds={"space": "S1 closed CFGs", "blocks": N, "entry": "any" if entry is None else f"b{entry}",
-                    "max_edges": max_edges, "skeleton": skeleton, "max_successors": 2, "acyclic_forward_edges_only": dag},
+                    "max_edges": max_edges, "skeleton": skeleton, "max_successors": 2, "acyclic_forward_edges_only": dag,
+                    "names": f"{prefix}0..{prefix}{N-1}", "routes": routes or ["direct"], "required_shape_features": features},
             budget_s=budget,
             expect_paths=exp,
             required=required,
@@ -77,15 +85,23 @@ def s1_jobs(tier, harness, quick_n5_max_edges=None):
         mk("S1-N4-all-entries", 4, None, exp=expected(4, None)),
     ]
     jobs.append(mk("F6dag-N6-entry-b0-forward-edges", 6, 0, dag=True, budget=900.0))
+    # names that sort AFTER every generated name (the library sorts block names in several places)
+    jobs.append(mk("S1-N4-all-entries-z-names", 4, None, exp=expected(4, None), prefix="z"))
+    # histories: the graph is written to a dictionary / YAML and read back between two stages
+    RELOADS = ["reload@1", "reload@2", "yreload@2"]
+    BOTH = ["direct", "reload@2"] if with_routes else None
+    if with_routes:
+        jobs.append(mk("S1-N4-all-entries-reloaded-between-stages", 4, None, exp=expected(4, None), routes=RELOADS))
     if tier != "quick":
         jobs.append(mk("F7dag-N7-entry-b0-forward-edges", 7, 0, dag=True, budget=1200.0, required=False))
     if tier == "quick":
         if quick_n5_max_edges is None:
-            jobs.append(mk("S1-N5-entry-b0", 5, 0, exp=expected(5, 0)))
+            jobs.append(mk("S1-N5-entry-b0" + ("-direct-and-reloaded-after-loops" if BOTH else ""), 5, 0, exp=expected(5, 0), routes=BOTH))
         else:
             jobs.append(mk(f"S1-N5-entry-b0-le{quick_n5_max_edges}-edges", 5, 0, max_edges=quick_n5_max_edges))
     else:
-        jobs.append(mk("S1-N5-all-entries", 5, None, exp=expected(5, None), budget=3000.0))
+        jobs.append(mk("S1-N5-all-entries" + ("-direct-and-reloaded-after-loops" if BOTH else ""), 5, None, exp=expected(5, None), budget=3000.0, routes=BOTH))
+        jobs.append(mk("S1-N5-entry-b0-z-names", 5, 0, exp=expected(5, 0), prefix="z"))
         jobs.append(mk("F6-N6-entry-b0-le7-edges", 6, 0, max_edges=7, budget=600.0, required=False))
         for nm, sk in (("id", [0, 1, 2, 3, 4, 5, 6]), ("rev", [0, 6, 5, 4, 3, 2, 1]), ("ilv", [0, 2, 4, 6, 1, 3, 5])):
             jobs.append(mk(f"F7-N7-chain-{nm}-le9-edges", 7, 0, max_edges=9, skeleton=sk, budget=300.0, required=False))
